@@ -7,7 +7,7 @@ from .. import lasobj as lo
 
 ID = "C03"
 MODULE = "LasioProofs.Props.C03"
-EXTRA_MODULES = ["LasioProofs.Props.C01File"]
+EXTRA_MODULES = ["LasioProofs.Props.C01File", "LasioProofs.Props.C01FileDlm"]
 RULE = ("LASFile objects built from specs (default ~Version/~Well items plus 0..6 generated items per section: duplicate, blank and "
         "case-variant mnemonics, int/float/numpy/text/numeric-text/empty/None values, empty-with-unit, fields over letters, digits, "
         "punctuation, quotes, brackets, non-ASCII letters, one item made the widest of its section in each column) x version {1.2, 2.0} "
@@ -536,6 +536,6 @@ LEVEL_TEXT = ("Machine-checked Lean 4 theorems about an executable model of the 
               "(C03_section), standardize_value is idempotent, splitlines/join is the identity on normal-form ~Other text. Tie: byte-exact "
               "differential comparison of the compiled model with las.write and with the real section parser, and the property's oracle "
               "through lasio.read.")
-LEVEL_NOTE = ("Whole file including the data section and the steering values: Props/C01File.lean (C01_file). num() is not part of this model (values are raw text; the oracle applies the real num). The reader's section finding / ~Other "
+LEVEL_NOTE = ("With the default `DLM . SPACE` item of lasio.LASFile() in ~Version (Props/C01FileDlm.lean, hypothesis DlmOK instead of 'no DLM item'): C03_file_dlm, C01_file_dlm(+_wrapYes, _unwrapped), C11_file_fixed_point_dlm / C11_file_iterate_dlm (all four steering values equal), C12_file_dlm; counter-examples DLM COMMA over blank-separated data (known finding dlm-not-space), DLM FOO (KeyError); two DLM items are ignored by the reader. Whole file including the data section and the steering values: Props/C01File.lean (C01_file). num() is not part of this model (values are raw text; the oracle applies the real num). The reader's section finding / ~Other "
               "collection is covered by the oracle only. Forced hypothesis: mnemonic not starting with '#'/'~'. The order lookup is the two-step "
               "(exact, then upper-cased) one of both reader and writer; C03_case_stable proves they agree under every mnemonic_case.")
